@@ -260,6 +260,22 @@ func kvStep(state string, in kvInput, out string) (bool, string) {
 			ns = "l:" + strings.Join(rest, ",")
 		}
 		return out == bulk(head), ns
+	case "blpop":
+		// blocking pop with a short timeout: the head element if the list is non-empty at its linearization point, the nil
+		// array if the list was missing when it gave up
+		if missing {
+			return out == "*-1\r\n", state
+		}
+		if !strings.HasPrefix(state, "l:") {
+			return wrong, state
+		}
+		head := list[0]
+		rest := list[1:]
+		ns := "~"
+		if len(rest) > 0 {
+			ns = "l:" + strings.Join(rest, ",")
+		}
+		return out == fmt.Sprintf("*2\r\n$%d\r\n%s\r\n$%d\r\n%s\r\n", len(in.Arg), in.Arg, len(head), head), ns
 	case "llen":
 		if missing {
 			return out == integer(0), state
@@ -414,6 +430,23 @@ var scenarios = []scenario{
 			return []string{"LLEN", k}, k, kvInput{"llen", ""}
 		}
 	}},
+	// blocking pops against pushes and deletes of the same list (a blocked popper re-examines the key on every poll)
+	{"bqueue", []string{"b1"}, func(rng *rand.Rand, g, i int, keys []string) ([]string, string, kvInput) {
+		k := keys[0]
+		v := fmt.Sprintf("e%d_%d", g, i)
+		switch rng.Intn(7) {
+		case 0, 1:
+			return []string{"RPUSH", k, v}, k, kvInput{"rpush", v}
+		case 2, 3:
+			return []string{"BLPOP", k, "0.05"}, k, kvInput{"blpop", k}
+		case 4:
+			return []string{"DEL", k}, k, kvInput{"del", ""}
+		case 5:
+			return []string{"LLEN", k}, k, kvInput{"llen", ""}
+		default:
+			return []string{"LPOP", k}, k, kvInput{"lpop", ""}
+		}
+	}},
 	{"set", []string{"s1", "s2"}, func(rng *rand.Rand, g, i int, keys []string) ([]string, string, kvInput) {
 		k := pick(rng, keys)
 		m := pick(rng, []string{"a", "b", "c"})
@@ -549,6 +582,9 @@ func parseBack(o concOp) ([]string, string, kvInput) {
 	}
 	if op == "expire" {
 		op = "expirenow"
+	}
+	if op == "blpop" {
+		arg = o.Cmd[1]
 	}
 	return o.Cmd, o.Key, kvInput{Op: op, Arg: arg}
 }
